@@ -57,7 +57,10 @@ class StubChangeDetector(ChangeDetector):
 
 
 def seg_stat(values):
-    first, last = int(round(float(values[0]))), int(round(float(values[-1])))
+    arr = np.asarray(values)
+    if arr.ndim != 1:
+        raise TypeError(f"the statistic was handed an array of shape {arr.shape} instead of the segment's values as a 1-D sequence")
+    first, last = int(round(float(arr[0]))), int(round(float(arr[-1])))
     return SymReal(z3.Real(f"st_{first}_{last}"))
 
 
@@ -329,7 +332,10 @@ def jobs(tier, mode="c17"):
 
 def _num_stat(env):
     def f(values):
-        first, last = int(round(float(values[0]))), int(round(float(values[-1])))
+        arr = np.asarray(values)
+        if arr.ndim != 1:
+            raise TypeError(f"the statistic was handed an array of shape {arr.shape} instead of the segment's values as a 1-D sequence")
+        first, last = int(round(float(arr[0]))), int(round(float(arr[-1])))
         return env.get(f"st_{first}_{last}", 0.0)
     return f
 
